@@ -424,3 +424,44 @@ class export_string_signature_step:
 
     def post_loop_goes_on(flow):
         return flow == 'next'
+
+
+@contract(EX + 'Exporter.export_string', props=['C08'], name='export_string_signature_rows')
+class export_string_signature_rows:
+    """Segment contract: from the end of the signature-collection loop to the head of the row loop.  The signatures collected per
+    spine (one list per contributing node, all of the same length: the collection step refuses anything else) are laid out as rows:
+    row i holds the i-th signature of every contributing node, in the order of the nodes; these rows follow the rows recovered by the
+    backwards walk, which are untouched; nothing is added when no signature is in force.  Domain: 0..3 contributing nodes with 1..2
+    signatures each."""
+    tail = 'for node in document.tree.stages[from_stage]'
+    cut = 'for stage in range('
+    assumes = ('domain: at most three contributing nodes, at most two signatures each (Python lists)',)
+
+    def inputs(g):
+        ncols = g.choice('contributing nodes', [0, 1, 2, 3])
+        depth = g.choice('signatures each', [1, 2])
+        collected = None
+        if ncols > 0:
+            collected = []
+            for c in range(ncols):
+                col = []
+                for r in range(depth):
+                    col.append(g.str_sym(f'sig.{c}.{r}', ['*clefG2', '*k[f#]', '*M3/4']))
+                collected.append(col)
+        from kernpy.core.document import Document
+        from contracts.shapes import mk_tree
+        document = g.new(Document, {'tree': mk_tree(g), 'measure_start_tree_stages': [], 'page_bounding_boxes': {}, 'header_stage': None}, None)
+        options = g.new(_ExportOptions, {'spine_types': ['**kern'], 'from_measure': 1, 'to_measure': None, 'token_categories': [], 'kern_type': None,
+                                         'instruments': None, 'show_measure_numbers': False, 'spine_ids': None}, None)
+        rows = [[g.str_sym('rows[0][0]', ['**kern'])]]
+        return {'self': g.new(Exporter, {}, ()), 'document': document, 'options': options, 'rows': rows, 'node_signatures': collected,
+                'from_stage': g.int('from_stage', 1), 'to_stage': g.int('to_stage', 1), '_collected': collected, '_before': list(rows), '_depth': depth}
+
+    modifies = ('rows', 'self.**')
+
+    def post_signature_rows_follow_the_recovered_rows(rows, before, collected, depth):
+        want = list(before)
+        if collected is not None:
+            for i in range(depth):
+                want.append([col[i] for col in collected])
+        return rows == want
